@@ -221,7 +221,7 @@ def crash_recovery(trio, sc, snap_dir, k, contents, cfg, pre_abs, pid_prefixes, 
     # model correspondence of the recovery from the same crash state is checked by the caller through results below
     # (3') the same recovery with the very data of the interrupted call (whatever the crash left at its address must
     #      not be trusted as that content), on a copy of the crash directory
-    if sc.data_tok is not None and sc.call.name == "store_object":
+    if sc.data_tok is not None and sc.call.name in ("store_object", "delete_object", "tag_object"):
         import shutil as _sh
         twin = snap_dir + "_same"
         _sh.copytree(snap_dir, twin)
@@ -236,6 +236,15 @@ def crash_recovery(trio, sc, snap_dir, k, contents, cfg, pre_abs, pid_prefixes, 
             q3 = real2.run(retrieve_object(sc.pid))
             if q3 != "ok content tok:%d" % sc.data_tok:
                 problems.append("recovery with the same data: pid not retrievable with its bytes: %s" % q3[:60])
+            # the recovery itself must not hurt the others either (they may share the very object re-stored)
+            for l in before_by:
+                if l.startswith("B "):
+                    from .enc import dec_str
+                    q = dec_str(l.split(" ")[1])
+                    rq = real2.run(retrieve_object(q))
+                    want = [x for x in pre_abs if x.startswith("O " + l.split(" ")[2] + " ")]
+                    if want and rq != "ok content " + want[0].split(" ")[2]:
+                        problems.append("after the recovery of %r, other pid %r is no longer retrievable: %s" % (sc.pid, q, rq[:60]))
         finally:
             _sh.rmtree(twin, ignore_errors=True)
     # (3) delete_object (may say unknown) then store_object always succeeds and the pid is retrievable
